@@ -133,6 +133,8 @@ type fgen struct {
 	readRec       map[string]bool // when non-nil, records the heap keys read
 	precise       *preciseInfo    // location-precise modifies items of the function under verification
 	stackLocals   []stackLocal    // non-escaping locals (callees cannot write them)
+	guardInfos    []*guardInfo
+	freshRefs     map[string]bool // refs allocated by this function
 }
 
 func (g *fgen) emit(s string) { g.lines = append(g.lines, s) }
@@ -629,6 +631,34 @@ func (g *fgen) havocAll(st *state) {
 	st.alloc = na
 }
 
+// interiorPtr: the pointer value &obj.f (or &arr[i]) as a term.
+func (g *fgen) interiorPtr(l *loc) string {
+	if len(l.sub) > 0 || l.root == rootGlobal {
+		return g.fresh("iptr", "Int")
+	}
+	k := heapKey(l.root, l.rootT, l.path)
+	switch l.root {
+	case rootField, rootBox:
+		fn := "iptr_" + k
+		if !g.declared[fn] {
+			g.declared[fn] = true
+			g.emit(fmt.Sprintf("(declare-fun %s (Int) Int)", fn))
+		}
+		return fmt.Sprintf("(%s %s)", fn, l.base)
+	case rootElem:
+		if l.idx == "" {
+			return l.base
+		}
+		fn := "eptr_" + k
+		if !g.declared[fn] {
+			g.declared[fn] = true
+			g.emit(fmt.Sprintf("(declare-fun %s (Int Int) Int)", fn))
+		}
+		return fmt.Sprintf("(%s %s %s)", fn, l.base, l.idx)
+	}
+	return g.fresh("iptr", "Int")
+}
+
 // havocHeap havocs every real heap cell but keeps the ghost variables.
 func (g *fgen) havocHeap(st *state) {
 	keep := map[string]string{}
@@ -646,6 +676,10 @@ func (g *fgen) allocRef(st *state) string {
 	r := g.fresh("ref", "Int")
 	g.fact("true", fmt.Sprintf("(> %s %s)", r, st.alloc))
 	st.alloc = r
+	if g.freshRefs == nil {
+		g.freshRefs = map[string]bool{}
+	}
+	g.freshRefs[r] = true
 	return r
 }
 
@@ -798,9 +832,9 @@ func (g *fgen) get(v ssa.Value) val {
 		return vv
 	}
 	if l, ok := g.locs[v]; ok {
-		// interior pointer escaping as a value
-		_ = l
-		n := g.fresh("iptr", "Int")
+		// interior pointer escaping as a value: a deterministic function of the
+		// enclosing object (so &x.mu denotes the same pointer at Lock and Unlock)
+		n := g.interiorPtr(l)
 		g.fact("true", fmt.Sprintf("(< 0 %s)", n))
 		vv := val{n, v.Type(), "Int"}
 		g.vals[v] = vv
